@@ -367,7 +367,9 @@ func mutQuery(r *rand.Rand, q []kv, numParams []string, token bool) (string, []k
 		add("no-subject", plain(func() []kv { return dropQ(q, "subject_id") }))
 	}
 	add("dropped-subject-key", plain(func() []kv { return append(q, kv{"subject", "u0"}) }))
-	add("unknown-key", plain(func() []kv { return append(q, kv{pickS(r, []string{"foo", "Namespace", "subject_set", "page", "max_depth"}), "bar"}) }))
+	add("unknown-key", plain(func() []kv {
+		return append(q, kv{pickS(r, []string{"foo", "Namespace", "subject_set", "page", "max_depth"}), "bar"})
+	}))
 	add("bad-percent-escape", func() ([]kv, string, string) {
 		return q, "&", pickS(r, []string{"&namespace=%zz", "&%", "&object=%2", "&=", "&&&", "&namespace"})
 	})
@@ -1348,12 +1350,16 @@ func genC13GRPC(r *rand.Rand, st *c13State, fam string) *c13Req {
 			{"page_size-negative", func() { req.PageSize = -1 }},
 			{"page_size-negative", func() { req.PageSize = -2147483648 }},
 			{"page_size-maxint", func() { req.PageSize = 2147483647 }},
-			{"malformed-page-token", func() { req.PageToken = pickS(r, []string{"garbage", "123", "' OR 1=1 --", "\x00", "00000000-0000-0000-0000-00000000000"}) }},
+			{"malformed-page-token", func() {
+				req.PageToken = pickS(r, []string{"garbage", "123", "' OR 1=1 --", "\x00", "00000000-0000-0000-0000-00000000000"})
+			}},
 			{"malformed-page-token", func() { req.PageToken = hugeString(hugeBody) }},
 			{"wellformed-unknown-page-token", func() {
 				req.PageToken = pickS(r, []string{"6ba7b810-9dad-11d1-80b4-00c04fd430c8", "00000000-0000-0000-0000-000000000000", "{6ba7b810-9dad-11d1-80b4-00c04fd430c8}", "FFFFFFFF-FFFF-FFFF-FFFF-FFFFFFFFFFFF"})
 			}},
-			{"expand-mask-junk", func() { req.ExpandMask = &fieldmaskpb.FieldMask{Paths: []string{"", "a.b.c", "\x00", hugeString(1 << 16)}} }},
+			{"expand-mask-junk", func() {
+				req.ExpandMask = &fieldmaskpb.FieldMask{Paths: []string{"", "a.b.c", "\x00", hugeString(1 << 16)}}
+			}},
 			{"snaptoken-garbage", func() { req.Snaptoken = "garbage" }},
 		}
 		q.baseMsg = proto.Clone(req)
